@@ -275,6 +275,33 @@ def check_c07(seed, tier):
         finally:
             wipe_user_cache()
             shutil.rmtree(stem, ignore_errors=True)
+    # product directories of the SAME NAME under different parents (two deliveries unpacked as `<date>/product`, the same product
+    # id on two disks): images of the same name, different content — a cache made for one must never serve the other
+    for trial in range(1 if tier == "quick" else 4):
+        level = rng.choice(["1.1", "1.5"])
+        cfg_a = {"seed": rng.randrange(10**9), "level": level, "images": [("HH", None), ("HV", None)], "n_lines": rng.randint(2, 4), "n_pixels": 2}
+        cfg_b = dict(cfg_a, seed=rng.randrange(10**9), n_lines=cfg_a["n_lines"] + (trial % 2))
+        prod_a, prod_b = products.build(cfg_a), products.build(cfg_b)
+        stem = tempfile.mkdtemp(prefix="parents-", dir=common.SCRATCH)
+        base = rng.choice(["product", "0000123456_001001_ALOS2290760600-191011", "data"])
+        pa, pb = os.path.join(stem, "a", base), os.path.join(stem, "b", "deeper", base)
+        wipe_user_cache()
+        try:
+            synth.write_product(prod_a, pa)
+            synth.write_product(prod_b, pb)
+            evals += 1
+            distinct.add(("same-basename-roots", base, level))
+            case = {"cfg_a": cfg_a, "cfg_b": cfg_b, "directories": ["a/" + base, "b/deeper/" + base],
+                    "scenario": "cache created for <stem>/a/<name>, the product <stem>/b/deeper/<name> (same directory name, same image names) opened with use_cache=True"}
+            _open(pa, use_cache=False, create_cache=True)
+            d = treecmp.diff(fp(_open(pb, use_cache=False)), fp(_open(pb, use_cache=True)))
+            if d:
+                viol.append({"case": case, "what": "a cache made for a directory of the same name elsewhere was used: " + d, "key": "cache-differs:local"})
+        except Exception as e:  # noqa: BLE001
+            viol.append({"case": {"directories": [pa, pb]}, "what": f"{type(e).__name__}: {e}"[:300], "key": common.failure_site(e)})
+        finally:
+            wipe_user_cache()
+            shutil.rmtree(stem, ignore_errors=True)
     return {"name": "oracle:C07 cache transparency", "evaluations": evals, "distinct": len(distinct), "violations": viol, "samples": samples}
 
 
